@@ -204,7 +204,7 @@ def scripted(run, name, lines, steps, consts):
                 jitter=False)
 
 
-def run_core(ctx, scenarios, par=8, timeout=900):
+def run_core(ctx, scenarios, par=8, timeout=2700):
     """Executes scenarios on the real pipeline; returns (trace_path, stats)."""
     cases = os.path.join(ctx.scratch, "core_cases_%d.ndjson" % len(ctx.tlc_runs))
     with open(cases, "w") as f:
@@ -249,7 +249,7 @@ def classify_crash(txt):
 
 def validate(ctx, trace, maxid=40):
     """TLC evaluates the property monitors on every step of the recorded runs. Returns (violation records, lines)."""
-    res = ctx.tlc("PipelineMon", "PipelineMon.cfg", workers=1, files={trace: "trace.ndjson"}, timeout=1200,
+    res = ctx.tlc("PipelineMon", "PipelineMon.cfg", workers=1, files={trace: "trace.ndjson"}, timeout=3600,
                   deadlock=False, overrides={"MaxId": str(maxid)}, name="PipelineMon/trace")
     if not res.ok:
         raise vlib.Infra("trace validation did not complete: %s\n%s" % (res.violated, res.out[-3000:]))
@@ -282,7 +282,7 @@ def consts_of(overrides):
     return d
 
 
-def mutant_schedule(ctx, switch, overrides, cfg="Pipeline_base.cfg", timeout=600):
+def mutant_schedule(ctx, switch, overrides, cfg="Pipeline_base.cfg", timeout=1800):
     """TLC on the specification with mechanism `switch` disabled: must find a property violation; returns the
     gate-level schedule (lines, steps) of the shortest counterexample."""
     ov = dict(overrides or {})
@@ -298,7 +298,7 @@ def mutant_schedule(ctx, switch, overrides, cfg="Pipeline_base.cfg", timeout=600
     return lines, steps, res.violated
 
 
-def simulated_schedules(ctx, n, overrides, depth=300, timeout=300):
+def simulated_schedules(ctx, n, overrides, depth=300, timeout=900):
     res = ctx.tlc("Pipeline", "Pipeline_sim.cfg", overrides=overrides, workers=1, simulate="num=%d" % n, depth=depth,
                   seed=ctx.seed, timeout=timeout, deadlock=False, name="Pipeline/simulate", check=False)
     if res.rc == -9 or res.violated is not None:
@@ -413,7 +413,7 @@ def conformance(ctx, trace, groups):
         ov = _split_ov(any(l["cls"] in ("S", "Y") for r in rs for l in json.loads(runs[r][0])["lines"]), maxid)
         ov.update({"NProcs": "3", "Capacity": str(cons["Capacity"]), "NWorkers": str(cons["NWorkers"]),
               "BatchCount": str(cons["BatchCount"]), "Retry": str(cons["Retry"]), "HasDQ": "TRUE" if cons["HasDQ"] else "FALSE"})
-        res = ctx.tlc("PipelineTrace", "PipelineTrace.cfg", workers=1, files={f: "trace.ndjson"}, timeout=300, deadlock=False, check=False,
+        res = ctx.tlc("PipelineTrace", "PipelineTrace.cfg", workers=1, files={f: "trace.ndjson"}, timeout=900, deadlock=False, check=False,
                       overrides=ov, jvm=["-Dtlc2.tool.queue.IStateQueue=StateDeque"], name="PipelineTrace/%s" % tag)
         rep = [p for p in res.printed if isinstance(p, dict) and "reached" in p]
         if "Parse Error" in res.out or "semantic analysis failed" in res.out or "Semantic errors" in res.out:
@@ -457,7 +457,7 @@ def conformance_selftest(ctx, trace, cons, run):
     ov = _split_ov(any(l["cls"] in ("S", "Y") for l in json.loads(lines[0])["lines"]), len(json.loads(lines[0])["lines"]))
     ov.update({"NProcs": "3", "Capacity": str(cons["Capacity"]), "NWorkers": str(cons["NWorkers"]),
           "BatchCount": str(cons["BatchCount"]), "Retry": str(cons["Retry"]), "HasDQ": "TRUE" if cons["HasDQ"] else "FALSE"})
-    res = ctx.tlc("PipelineTrace", "PipelineTrace.cfg", workers=1, files={f: "trace.ndjson"}, timeout=120, deadlock=False, check=False,
+    res = ctx.tlc("PipelineTrace", "PipelineTrace.cfg", workers=1, files={f: "trace.ndjson"}, timeout=600, deadlock=False, check=False,
                   overrides=ov, jvm=["-Dtlc2.tool.queue.IStateQueue=StateDeque"], name="PipelineTrace/selftest-corrupted")
     rep = [p for p in res.printed if isinstance(p, dict) and "reached" in p]
     return bool(rep) and rep[-1]["reached"] < len(lines)
